@@ -8,6 +8,7 @@ package metamodel
 
 import (
 	"fmt"
+	"sort"
 	"strings"
 
 	"verif/internal/jv"
@@ -418,7 +419,48 @@ func (g *Gen) Object(kind string, depth int) any {
 	if !g.NoUnknown && g.chance(12, "unknown") {
 		out["unknownField"] = g.any_(false)
 	}
+	if !g.NoUnknown && g.chance(10, "foreign") {
+		// a field the specification defines for some other object (the Items Object's collectionFormat
+		// inside a schema, ...): unknown here, it has to survive like any unknown field
+		if f, ok := g.foreignField(kind); ok {
+			if v, ok := g.value(f, 0); ok {
+				out[f.Name] = v
+				if g.Pairs != nil {
+					g.Pairs["*.foreign:"+f.Name]++
+				}
+			}
+		}
+	}
 	return out
+}
+
+// foreignField picks a scalar field of another kind whose name this kind does not define.
+func (g *Gen) foreignField(kind string) (Field, bool) {
+	own := map[string]bool{}
+	for _, f := range g.M.Kinds[kind].Fields {
+		own[f.Name] = true
+	}
+	var cands []Field
+	var names []string
+	for n := range g.M.Kinds {
+		names = append(names, n)
+	}
+	sort.Strings(names)
+	seen := map[string]bool{}
+	for _, n := range names {
+		for _, f := range g.M.Kinds[n].Fields {
+			t := strings.TrimSuffix(f.Type, "*")
+			if own[f.Name] || seen[f.Name] || (t != "s" && t != "b" && t != "i" && t != "n") || f.Name == "$ref" {
+				continue
+			}
+			seen[f.Name] = true
+			cands = append(cands, Field{Name: f.Name, Type: f.Type})
+		}
+	}
+	if len(cands) == 0 {
+		return Field{}, false
+	}
+	return cands[rapid.IntRange(0, len(cands)-1).Draw(g.T, "foreignfield")], true
 }
 
 func (g *Gen) extensions(out map[string]any) {
